@@ -571,3 +571,34 @@ def digits_literals(V):
     if ok:
         V.check(r[1] == x, 'altered:digits', lambda: '%r -> %r' % (x, r[1]))
     V.cover('accept' if ok else 'reject')
+
+
+# ------------------------------------------------------------------ constants with mutable members
+MUTABLE_CONSTS = {
+    'tuple-of-list': (lambda: ([1, 2], 'x'), lambda r: r[0].append(3)),
+    'list-of-list': (lambda: [[1], 2], lambda r: r[0].append(9)),
+    'dict-of-list': (lambda: {'k': [1]}, lambda r: r['k'].append(9)),
+    'tuple-of-dict': (lambda: ({'a': 1},), lambda r: r[0].__setitem__('b', 2)),
+    'list': (lambda: [1, 2], lambda r: r.append(3)),
+}
+
+
+@ob('const/mutable-members', marks=['accept'], budget=(40, 100),
+    bounds='const = a tuple / list / dict holding a mutable member (5 shapes): a valid value is accepted; after the accepted result is '
+           'mutated in place, the same valid value is still accepted, the mutated value is rejected, and isinstance agrees (the declared '
+           'constant is not shared with results)')
+def const_mutable_members(V):
+    name = V.pick('shape', sorted(MUTABLE_CONSTS))
+    mk, mutate = MUTABLE_CONSTS[name]
+    with V.notrace():
+        T = Rule.annotate(type(mk()), constraints={'const': mk()})
+    first = attempt(T, mk())
+    V.check(first[0] == 'ok' and first[1] == mk(), 'verdict:const:mutable', lambda: '%s: %r' % (name, first))
+    mutate(first[1])
+    mutated = first[1]
+    again, bad = attempt(T, mk()), attempt(T, mutated)
+    det = lambda: '%s: after mutating the first result into %r: the declared value -> %s, the mutated value -> %s' % (
+        name, mutated, again[0], bad[0])
+    V.check(again[0] == 'ok' and bad[0] == 'err', 'verdict:const:shared-with-result', det)
+    V.check(isinst(T, mk()) and not isinst(T, mutated), 'isinstance:const:shared-with-result', det)
+    V.cover('accept')
